@@ -170,8 +170,9 @@ def combos(pydrex):
 def drex_params(rng, hostile=True):
     """Physical parameter set as a plain dict of floats (descriptor friendly)."""
     p = {
-        "stress_exponent": float(rng.uniform(1, 2)),
-        "deformation_exponent": float(rng.uniform(2, 5)),
+        # documented ranges, with their end points and whole numbers drawn explicitly
+        "stress_exponent": float(rng.uniform(1, 2)) if rng.random() < 0.8 else float(rng.choice([1.0, 1.5, 2.0])),
+        "deformation_exponent": float(rng.uniform(2, 5)) if rng.random() < 0.8 else float(rng.choice([2.0, 3.0, 3.5, 4.0, 5.0])),
         "nucleation_efficiency": float(rng.choice([0.0, 5.0, 50.0]) if rng.random() < 0.5 else rng.uniform(0, 10)),
         "gbm_mobility": float(rng.choice([0.0, 10.0, 125.0, 200.0]) if rng.random() < 0.6 else rng.uniform(0, 200)),
         "gbs_threshold": float(rng.choice([0.0, 0.3, 0.9]) if rng.random() < 0.6 else rng.uniform(0, 0.9)),
